@@ -167,10 +167,16 @@ def obj_body(case):
     with judge('objid-array'):
         check(all(np.array_equal(arr[n], keep[n]) for n in arr), 'objid-modifies-its-input-arrays')
         check([int(x) for x in g] == exp, 'objid-scalar-vs-array', lambda: dict(rows=rows, got=[int(x) for x in g], want=exp))
+    n = len(exp)
+    shp = (n, 1) if n % 2 else (2, n // 2)
     for label, ids in (('int64', np.array(exp, dtype=np.int64)), ('str', np.array([str(e) for e in exp])),
-                       ('int64-bigendian', np.array(exp, dtype=np.int64).astype('>i8'))):
+                       ('int64-bigendian', np.array(exp, dtype=np.int64).astype('>i8')),
+                       ('int64-2d', np.array(exp, dtype=np.int64).reshape(shp)), ('str-2d', np.array([str(e) for e in exp]).reshape(shp)),
+                       ('bytes', np.array([str(e).encode() for e in exp]))):
         un = call(unwrap_objid, ids)
         with judge('unwrap-objid-' + label):
+            check(np.shape(un) == np.shape(ids), 'unwrap-objid-%s:shape' % label, lambda: dict(got=np.shape(un), want=np.shape(ids)))
+            un = un.ravel()
             for k, uk in (('skyversion', 'skyversion'), ('rerun', 'rerun'), ('run', 'run'), ('camcol', 'camcol'),
                           ('firstfield', 'firstfield'), ('field', 'frame'), ('objnum', 'id')):
                 got = [int(x) for x in un[uk]]
@@ -204,7 +210,8 @@ def spec_strategy():
     # every field of a specObjID fits in 15 bits except MJD (< 66384): int32/uint32/uint16-safe values only where they fit
     return st.fixed_dictionaries(dict(rows=st.lists(row, min_size=1, max_size=5),
                                       low=st.sampled_from(['line', 'index', 'none']),
-                                      dtype=st.sampled_from(['i4', 'u4', 'i8', 'u8'])))
+                                      dtype=st.sampled_from(['i4', 'u4', 'i8', 'u8']),
+                                      mixed=st.lists(st.sampled_from(['u8', 'i8', 'i4', 'u4', '>i4', '>u8']), min_size=5, max_size=5)))
 
 
 def spec_body(case):
@@ -232,16 +239,20 @@ def spec_body(case):
             check(int(g[0]) == spec_oracle(r), 'specobjid-layout-run2d-intstring', lambda: dict(row=r, got=int(g[0])))
     check(scal == exp, 'specobjid-layout-scalar', lambda: dict(rows=rows, got=scal, want=exp))
     check(scal_s == exp, 'specobjid-layout-run2d-string', lambda: dict(rows=rows, got=scal_s, want=exp))
-    for dt in (np.int64, np.dtype(case.get('dtype', 'i8'))):
-        arr = {n: np.array([r[n] for r in rows], dtype=dt) for n, lo, hi, sh in SPEC_FIELDS}
+    mixed = case.get('mixed') or ['i8'] * 5
+    for dt in (np.int64, np.dtype(case.get('dtype', 'i8')), 'mixed'):
+        if dt == 'mixed':       # every field array with a dtype of its own (columns of different tables)
+            arr = {n: np.array([r[n] for r in rows], dtype=mixed[i]) for i, (n, lo, hi, sh) in enumerate(SPEC_FIELDS)}
+        else:
+            arr = {n: np.array([r[n] for r in rows], dtype=dt) for n, lo, hi, sh in SPEC_FIELDS}
         keep = {n: a.copy() for n, a in arr.items()}
         g = call(sdss_specobjid, arr['plate'], arr['fiber'], arr['mjd'], arr['run2d'], **kw(arr['line']))
         with judge('specobjid-array'):
             check(all(np.array_equal(arr[n], keep[n]) for n in arr), 'specobjid-modifies-its-input-arrays',
-                  lambda: dict(dtype=str(np.dtype(dt)), changed=[n for n in arr if not np.array_equal(arr[n], keep[n])]))
+                  lambda: dict(dtype=str(dt), changed=[n for n in arr if not np.array_equal(arr[n], keep[n])]))
             check(np.asarray(g).dtype == np.uint64, 'specobjid-array-dtype', lambda: dict(got=str(np.asarray(g).dtype)))
             check([int(x) for x in g] == exp, 'specobjid-scalar-vs-array',
-                  lambda: dict(rows=rows, got=[int(x) for x in g], want=exp, dtype=str(np.dtype(dt))))
+                  lambda: dict(rows=rows, got=[int(x) for x in g], want=exp, dtype=str(dt)))
     for label, ids in (('uint64', np.array(exp, dtype=np.uint64)), ('str', np.array([str(e) for e in exp])),
                        ('uint64-bigendian', np.array(exp, dtype=np.uint64).astype('>u8'))):
         for as_int in (True, False):
